@@ -13,7 +13,7 @@ def run(tier, seed):
                        'PARTIAL: the theorem covers the answer sequence against the prompt automaton (structure); values are compared by the oracle; '
                        'feed impedances are compared for models made of plain wires only (emulated arcs / helices / tapered wires are one object for '
                        'pymininec and a chain of wires for BASIC: that difference is the subject of C06)']
-    standard_front(chk, 'Props/C18.v', needs_items=(), extra_vo=('Model/Basic.v', 'Proofs/BasicP.v', 'Corr/BasDriver.v'))
+    standard_front(chk, 'Props/C18.v', needs_items=('bas_coef_scale', 'src_polar'), extra_vo=('Model/Basic.v', 'Proofs/BasicP.v', 'Proofs/BasicV.v', 'Corr/BasDriver.v'))
     rng = random.Random(seed)
     q = tier == 'quick'
     cases = [dict(id=i, seed=rng.randrange(10 ** 9)) for i in range(200 if q else 12000)]
